@@ -349,3 +349,39 @@ func verifHosts(l *roundRobinLoadBalancer) []*Host { return l.hosts.Load().([]*H
 //@ func proxycore.Conn.RemoteAddr
 //@   trusted
 //@   modifies nothing
+
+// C19: Connect performs the TLS handshake (when the endpoint has a TLS configuration) before the CQL
+// connection object exists; a failed handshake returns the error, and no connection is created or started.
+//@ iface proxycore.Endpoint.TLSConfig
+//@   modifies nothing
+//@ iface proxycore.Endpoint.Addr
+//@   modifies nothing
+//@ iface proxycore.Endpoint.IsResolved
+//@   modifies nothing
+//@ func proxycore.LookupEndpoint
+//@   trusted
+//@   modifies nothing
+
+//@ func proxycore.NewConn [C19]
+//@   ensures result != nil && fresh(result)
+//@   modifies nothing
+
+//@ func proxycore.Conn.Start [C19]
+//@   requires c != nil
+//@   modifies nothing
+
+//@ func proxycore.Connect [C19]
+//@   local $cnCreated bool = false
+//@   local $cnStarted bool = false
+//@   local $cnTLS bool = false
+//@   local $cnHandshakeFailed bool = false
+//@   local $cnCreatedBeforeHandshake bool = false
+//@   requires endpoint != nil
+//@   before proxycore.NewConn#1 set $cnCreated = true
+//@   before proxycore.Conn.Start#1 set $cnStarted = true
+//@   before tls.Conn.Handshake#1 set $cnTLS = true; $cnCreatedBeforeHandshake = $cnCreated
+//@   after tls.Conn.Handshake#1 set $cnHandshakeFailed = (result != nil)
+//@   ensures handshake-first: !$cnCreatedBeforeHandshake
+//@   ensures failed-handshake-refused: $cnTLS && $cnHandshakeFailed ==> err != nil && c == nil && !$cnCreated && !$cnStarted
+//@   ensures success: err == nil ==> c != nil && $cnCreated && $cnStarted
+//@   modifies *
